@@ -19,6 +19,7 @@ import (
 	"context"
 	"encoding/hex"
 	"fmt"
+	"io"
 	"net"
 
 	"strconv"
@@ -178,20 +179,23 @@ END\r\n
 				return fmt.Errorf("Byte count is not a number: %s", string(command))
 			}
 			count := v
+			if count < 0 {
+				return fmt.Errorf("Byte count is negative: %s", string(command))
+			}
 
+			// record (at most) the first 80 bytes of the data block
 			buff := make([]byte, 80)
+			if count < len(buff) {
+				buff = buff[:count]
+			}
 
-			n, err := b.Read(buff)
+			n, err := io.ReadFull(b, buff)
 			if err != nil {
 				return err
 			}
 
-			buff = buff[:n]
-
-			// discard rest of payload
-			count -= n
-
-			b.Discard(count)
+			// discard rest of payload and the \r\n that terminates the data block
+			b.Discard(count - n + 2)
 
 			s.ch.Send(event.New(
 				EventOptions,
